@@ -17,7 +17,7 @@
 (***************************************************************************)
 EXTENDS Naturals, FiniteSets, Sequences, TLC
 CONSTANTS Threads, PinSyms, InitPin,
-          Dev      \* accepted deviations of the code as built (known findings): subset of {"LogoutSplit"}
+          Dev      \* accepted deviations of the code as built (known findings): subset of {"LogoutSplit", "TransactionBusy", "DirtyRead", "TornWrite"}
 
 VARIABLES login,   \* "none" | "user" | "so"
           nsess,   \* open sessions on the token
@@ -27,33 +27,41 @@ VARIABLES login,   \* "none" | "user" | "so"
           nkey,    \* private token keys made by successful C_UnwrapKey calls
           nracy,   \* C_UnwrapKey calls that a C_Logout of another thread overlapped (as built: such a call may leave a key
                    \* without value behind - whether it returned CKR_OK or, the handle being purged, an error)
+          tlab,    \* the label of the shared public TOKEN key ("orig" at first)
+          trisk,   \* two C_SetAttributeValue calls on that key have overlapped (as built: the key may be lost, see TornWrite)
           skey,    \* the thread whose session owns the shared sensitive session key (0: there is none)
           pend     \* per thread: [st: "idle" | "inv" | "done", c, a, b, rv, out, lo]
                    \* lo: a C_Logout call of another thread overlapped the call (in real time, not only its instant)
-vars == <<login, nsess, pin, open, ro, nkey, nracy, skey, pend>>
+vars == <<login, nsess, pin, open, ro, nkey, nracy, tlab, trisk, skey, pend>>
 
-Idle == [st |-> "idle", c |-> "", a |-> "", b |-> "", rv |-> "", out |-> "", lo |-> FALSE]
-Init == /\ login = "none" /\ nsess = 0 /\ pin = InitPin /\ open = [t \in Threads |-> FALSE] /\ ro = [t \in Threads |-> FALSE] /\ nkey = 0 /\ nracy = 0 /\ skey = 0
+Idle == [st |-> "idle", c |-> "", a |-> "", b |-> "", rv |-> "", out |-> "", lo |-> FALSE, busy |-> FALSE]
+Init == /\ login = "none" /\ nsess = 0 /\ pin = InitPin /\ open = [t \in Threads |-> FALSE] /\ ro = [t \in Threads |-> FALSE] /\ nkey = 0 /\ nracy = 0 /\ tlab = "orig" /\ trisk = FALSE /\ skey = 0
         /\ pend = [t \in Threads |-> Idle]
 
-Calls == {"open", "openro", "loginso", "close", "login", "logout", "sessinfo", "setpin", "createpriv", "unwrappriv", "mksens", "badset", "readsens"}
+Calls == {"open", "openro", "loginso", "close", "login", "logout", "sessinfo", "setpin", "createpriv", "unwrappriv", "mksens", "badset", "readsens", "tset", "tbadset", "tget"}
+TokSets == {"tset", "tbadset"}
 Inv(t, c, a, b) ==
     /\ pend[t].st = "idle" /\ c \in Calls
     /\ (c \in {"open", "openro"} => ~open[t]) /\ (c \notin {"open", "openro"} => open[t])
     /\ pend' = [u \in Threads |->
                    IF u = t THEN [st |-> "inv", c |-> c, a |-> a, b |-> b, rv |-> "", out |-> "",
-                                  lo |-> \E w \in Threads \ {t} : pend[w].st # "idle" /\ pend[w].c = "logout"]
+                                  lo |-> \E w \in Threads \ {t} : pend[w].st # "idle" /\ pend[w].c = "logout",
+                                  \* busy: a C_SetAttributeValue of another thread on the shared token key overlaps the call
+                                  busy |-> \E w \in Threads \ {t} : pend[w].st # "idle" /\ pend[w].c \in TokSets]
                    ELSE IF c = "logout" /\ pend[u].st # "idle" THEN [pend[u] EXCEPT !.lo = TRUE]
+                   ELSE IF c \in TokSets /\ pend[u].st # "idle" THEN [pend[u] EXCEPT !.busy = TRUE]
                    ELSE pend[u]]
-    /\ UNCHANGED <<login, nsess, pin, open, ro, nkey, nracy, skey>>
+    /\ trisk' = (trisk \/ (c \in TokSets /\ \E w \in Threads \ {t} : pend[w].st # "idle" /\ pend[w].c \in TokSets))
+    /\ UNCHANGED <<login, nsess, pin, open, ro, nkey, nracy, tlab, skey>>
 
 StateName == IF login = "so" THEN "RW_SO" ELSE IF login = "user" THEN "RW_USER" ELSE "RW_PUBLIC"          \* of a R/W session
 StateOf(t) == IF ~ro[t] THEN StateName ELSE IF login = "user" THEN "RO_USER" ELSE IF login = "so" THEN "RO_WITH_SO" ELSE "RO_PUBLIC"
 ROExists   == \E u \in Threads : open[u] /\ ro[u]
 Done(t, rv, out) == pend' = [pend EXCEPT ![t].st = "done", ![t].rv = rv, ![t].out = out]
 Lin(t) ==
-    /\ pend[t].st = "inv" /\ UNCHANGED <<nkey, nracy>>
+    /\ pend[t].st = "inv" /\ UNCHANGED <<nkey, nracy, trisk>>
     /\ (pend[t].c \notin {"close", "mksens"} => UNCHANGED skey)
+    /\ (pend[t].c # "tset" => UNCHANGED tlab)
     /\ (pend[t].c \notin {"open", "openro", "close"} => UNCHANGED ro)
     /\ LET c == pend[t].c  a == pend[t].a  b == pend[t].b IN
        CASE c = "open"   -> /\ nsess' = nsess + 1 /\ open' = [open EXCEPT ![t] = TRUE] /\ Done(t, "OK", "")
@@ -93,6 +101,22 @@ Lin(t) ==
                             /\ UNCHANGED <<login, nsess, pin, open>>
          [] c = "readsens" -> /\ Done(t, IF skey # 0 THEN "ATTRIBUTE_SENSITIVE" ELSE "NOKEY", "")
                               /\ UNCHANGED <<login, nsess, pin, open>>
+         \* A public TOKEN key every session can change: a valid C_SetAttributeValue (label := a), one whose template is refused
+         \* at its last entry (nothing of it may stay - C09, also while another thread's change is under way), and a read
+         \* (as built, TransactionBusy: while another thread's change of the key is under way the call may be refused, without effect)
+         [] c = "tset"    -> /\ UNCHANGED <<login, nsess, pin, open>>
+                             /\ \/ tlab' = a /\ Done(t, "OK", "")
+                                \/ "TransactionBusy" \in Dev /\ pend[t].busy /\ UNCHANGED tlab /\ Done(t, "BUSY", "")
+         [] c = "tbadset" -> /\ UNCHANGED <<login, nsess, pin, open>>
+                             /\ \/ Done(t, "ATTRIBUTE_READ_ONLY", "")
+                                \/ "TransactionBusy" \in Dev /\ pend[t].busy /\ Done(t, "BUSY", "")
+         \* (as built, DirtyRead: the attributes another thread's C_SetAttributeValue has written so far are visible before that
+         \*  call has committed - or been rolled back -, and a read that overlaps such a call may fail)
+         [] c = "tget"    -> /\ UNCHANGED <<login, nsess, pin, open>>
+                             /\ \/ Done(t, "OK", tlab)
+                                \/ /\ "DirtyRead" \in Dev
+                                   /\ \/ \E w \in Threads \ {t} : pend[w].st # "idle" /\ pend[w].c \in TokSets /\ Done(t, "OK", pend[w].a)
+                                      \/ pend[t].busy /\ Done(t, "BUSY", "")
          \* ... and likewise C_UnwrapKey into a private token key
          [] c \in {"createpriv", "unwrappriv"} ->
                                 /\ Done(t, IF login = "user" THEN "OK" ELSE "USER_NOT_LOGGED_IN", "")
@@ -107,20 +131,29 @@ PurgedByLogout(t, c, rv) == /\ "LogoutSplit" \in Dev /\ c \in {"createpriv", "un
 \* (as built, same finding: the key material of a key that is being made while another thread logs out cannot be
 \*  encrypted any more; the result of token->encrypt is not looked at, C_UnwrapKey returns CKR_OK and leaves a key
 \*  WITHOUT value.  What must never happen, deviation or not: the value stored in clear.)
+\* As built (known finding K18-transaction-busy): an object file has room for ONE transaction; the C_SetAttributeValue of a
+\* second thread on the same token object does not wait, it fails with CKR_GENERAL_ERROR (without effect).
+BusyRefused(t, c, rv) == pend[t].rv = "BUSY" /\ rv \notin {"OK", "ATTRIBUTE_READ_ONLY"}     \* (also a tget, under DirtyRead)
+\* As built (known finding K18-torn-write): after a roll-back ObjectFile::refresh(true) empties the attribute map and reloads
+\* it in separate critical sections; the commit of another thread's C_SetAttributeValue in between stores the half-empty
+\* map: the object file keeps a handful of attributes, the key cannot be found any more - not even after a restart.
+KeyLost(c, rv) == "TornWrite" \in Dev /\ trisk /\ c \in TokSets \cup {"tget"} /\ rv = "LOST"
 Ret(t, c, rv, out) ==
     /\ pend[t].st = "done" /\ pend[t].c = c
-    /\ (pend[t].rv = rv /\ pend[t].out = out) \/ PurgedByLogout(t, c, rv)
+    /\ (pend[t].rv = rv /\ pend[t].out = out) \/ PurgedByLogout(t, c, rv) \/ BusyRefused(t, c, rv) \/ KeyLost(c, rv)
        \/ ("LogoutSplit" \in Dev /\ c = "unwrappriv" /\ pend[t].lo /\ rv = "OK")
     /\ nkey' = IF c = "unwrappriv" /\ rv = "OK" THEN nkey + 1 ELSE nkey
     /\ nracy' = IF c = "unwrappriv" /\ pend[t].lo THEN nracy + 1 ELSE nracy
-    /\ pend' = [pend EXCEPT ![t] = Idle] /\ UNCHANGED <<login, nsess, pin, open, ro, skey>>
+    /\ pend' = [pend EXCEPT ![t] = Idle] /\ UNCHANGED <<login, nsess, pin, open, ro, tlab, trisk, skey>>
 
 \* what a single thread finds afterwards: the login state, and which PIN logs in
 \* ... and of the keys: as many as calls succeeded; each has the value that was wrapped (as built: except the ones made
 \* while another thread logged out); the value is nowhere in the token directory in clear (C06) - no exception
-Final(st, goodpin, nkeys, bad, plain) ==
+Final(st, goodpin, nkeys, bad, plain, lab) ==
     /\ \A t \in Threads : pend[t].st = "idle"
     /\ st = StateName /\ goodpin = pin
+    \* the label of the shared token key, read after a restart ("n/a": there is no such key)
+    /\ lab = tlab \/ ("TornWrite" \in Dev /\ trisk /\ lab = "n/a")
     /\ plain = 0
     /\ nkeys = nkey \/ ("LogoutSplit" \in Dev /\ nkeys <= nkey + nracy /\ nkey <= nkeys + nracy)
     /\ bad = 0 \/ ("LogoutSplit" \in Dev /\ bad <= nracy)
@@ -129,8 +162,8 @@ Next == \/ \E t \in Threads, c \in Calls, a \in PinSyms \cup {""}, b \in PinSyms
         \/ \E t \in Threads : Lin(t)
         \/ \E t \in Threads, c \in Calls, rv \in {"OK", "PIN_INCORRECT", "USER_ALREADY_LOGGED_IN", "USER_NOT_LOGGED_IN", "ATTRIBUTE_SENSITIVE",
                      "ATTRIBUTE_READ_ONLY", "NOKEY", "EXISTS", "USER_ANOTHER_ALREADY_LOGGED_IN", "SESSION_READ_ONLY_EXISTS",
-                     "SESSION_READ_WRITE_SO_EXISTS"},
-              out \in {"", "RW_USER", "RW_PUBLIC", "RW_SO", "RO_USER", "RO_PUBLIC", "LEAK"} : Ret(t, c, rv, out)
+                     "SESSION_READ_WRITE_SO_EXISTS", "GENERAL_ERROR", "LOST"},
+              out \in {"", "RW_USER", "RW_PUBLIC", "RW_SO", "RO_USER", "RO_PUBLIC", "LEAK", "orig", "A", "B"} : Ret(t, c, rv, out)
 Spec == Init /\ [][Next]_vars
 
 TypeOK == /\ login \in {"none", "user", "so"} /\ nsess \in 0 .. Cardinality(Threads) + 1 /\ pin \in PinSyms
